@@ -32,6 +32,8 @@ CLAIMED = {
     "C08": (_t("split with symbolic capacities, waits, pitches, channels and probe tick; piano-roll, duration, event and aliasing clauses."), "4 C08"),
     "C10": (_t("Bar construction with symbolic waits (shorter/equal/longer than capacity) and symbolic signature events."), "4 C10"),
     "C11": (_t("type discipline of tick values (proxy sort tracking Int vs Real) after every operation of the alphabet."), "4 C11"),
+    "C12": (_t("sequences_save + sequences_load with symbolic ticks, pitches and velocities; the mido file layer is an in-memory hand-over on symbolic paths and the real file on disk in every path's concrete replay."), "4 C12"),
+    "C13": (_t("parse_mido + convert on directly constructed mido objects: routing over 9 groupings with symbolic delta times, and the nearest-tick clause for resolutions where the rescale arithmetic is certified exact."), "4 C13"),
     "C14": (_t("Sequence.transpose / Bar.transpose with symbolic pitches and intervals, key signatures checked against an independent tonic table."), "4 C14"),
     "C17": (_t("equals on identical, re-ordered, re-represented and singly perturbed pairs under all 16 flag combinations."), "4 C17"),
     "C18": (_t("pad / cutoff / scale / set_channel with symbolic waits and arguments."), "4 C18"),
